@@ -285,7 +285,7 @@ def mutants(schema, doc, limit_per_rewrite=None):
         for bad in [n for n, t in schema["types"].items() if t["kind"] in ("OBJECT", "INTERFACE", "UNION")][:2]:
             m = mk()
             add_var(m, [i], "zzObj", bad)
-            m["defs"][i]["sels"].append(leaf("__typename", alias="zzk", dirs=[{"name": "qd", "args": [["n", ["var", "zzObj"]]]}] if "qd" in (schema.get("directives") or {}) else []))
+            m["defs"][i]["sels"].append(leaf("__typename", alias="zzk", dirs=[{"name": "qd", "args": [["a0", ["var", "zzObj"]]]}] if "qd" in (schema.get("directives") or {}) else []))
             yield "variable_non_input_type", kind_of(schema, bad).lower(), False, m
 
     # ---- subscriptions: more than one root field (direct / through inline / through named fragment)
